@@ -692,7 +692,7 @@ STATEMENTS = {
 	'step': 'each dispatched sub-parser call consumes >= 1 character, stays inside the source, returns the consumed slice as text and its source map',
 	'progress': 'for every definition with the side conditions and every source, parse_impl (and the quote loop inside it) never exhausts its len(source) fuel: the real while loops terminate',
 	'concat': 'for every source parse_impl accepts, concatenating the raw token texts (unary marker read as "-") gives back the source',
-	'total': 'parse_impl accepts every source over the definition\'s alphabet that does not end in "-" (there: IndexError, example)',
+	'total': 'parse_impl accepts every source over the definition\'s alphabet (also one ending in "-": binary Minus since 6dc3d89, example)',
 	'span': 'for every raw token the slice of the source addressed by its (line, col) span is its text; the four numbers are >= 0',
 	'balance': 'for every token list _rebuild accepts: #INDENT = number of indentation increases, #DEDENT + depth left open = sum of their sizes',
 	'balance_iff': 'with nothing left open: #INDENT = #DEDENT iff every increase is exactly one unit',
